@@ -98,6 +98,14 @@ def _ioapi_case(rng):
     src = c10._src(rng)
     src['nl'] = rng.randint(2, 3)
     src['kind'] = rng.choice(['arrays', 'arrays', 'disk'])
+    if d == 'LAY' and src['kind'] == 'arrays' and rng.random() < 0.4:
+        # the same object was reduced along LAY before and its level edges were assigned anew since (same number of layers)
+        nl = src['nl']
+        asc = src['lv'][0] < src['lv'][-1]
+        inner = sorted(rng.sample(range(1, 64), nl - 1))
+        lv = [0] + inner + [64]
+        return dict(kind='ioapi', fns=[], c10=dict(src=src, recipes=[], ops=[
+            ['setvg', ['%d/64' % x for x in (lv if asc else lv[::-1])]], ['apply', d, fn]]))
     return dict(kind='ioapi', fns=[], c10=dict(src=src, recipes=[], ops=[['apply', d, fn]]))
 
 
